@@ -80,7 +80,7 @@ def gen_case(r, big):
 
 
 def gen(r, tier):
-    n = {"quick": 220, "search": 1200, "thorough": 4000}[tier]
+    n = {"quick": 170, "search": 900, "thorough": 2500}[tier]
     return [gen_case(r, tier != "quick") for _ in range(n)]
 
 
